@@ -109,6 +109,16 @@ theorem insertions_are_spec_occurrences (doc : Doc) :
     Model.insertions doc = (Spec.occs doc).map toW :=
   insertions_eq doc
 
+/-- **flatten_imports_order** — a sheet that starts with `@import`s is flattened into the matcher
+    as the imported sheets' rules, one block per `@import` statement in the order written (those whose
+    media list matches the device), followed by the sheet's remaining statements: a sheet imported
+    twice contributes its rules twice, the second time at the later position. -/
+theorem flatten_imports_order (dev : Medium) (subs : List (List Medium × List Item)) (rest : List Item) :
+    Model.newCSS dev (subs.map (fun p => Item.imp p.1 p.2) ++ rest) =
+      (subs.filter fun p => mediaOk p.1 dev).flatMap (fun p => Model.newCSS dev p.2) ++
+        Model.preprocessItems dev false rest :=
+  leading_imports dev subs rest
+
 /-- (weights) comparing the code's weights is comparing (origin/importance, style attribute,
     specificity with presentational hints at zero) — for all occurrences -/
 theorem weights_agree (x y : Occ) : wle (toW x) (toW y) = Spec.le x y := by
@@ -168,6 +178,13 @@ def regression3 : Doc :=
   docOf [] [.rule [{ spec := (1, 0, 0), ok := false }]
     [.nested [{ spec := (0, 1, 0), ok := false }, { spec := (0, 1, 0), ok := false }] [.decl ⟨false, 1⟩]]]
 example : Model.winner regression3 = none ∧ Spec.docWinner regression3 = none := by decide
+
+/-- `@import "a"; @import "b"; @import "a";` with `#a{p:1}` in a and `#a{p:2}` in b: a wins -/
+def reimport1 : Doc :=
+  let a : List Item := [.rule [sel 1 0 0] [.decl ⟨false, 1⟩]]
+  let b : List Item := [.rule [sel 1 0 0] [.decl ⟨false, 2⟩]]
+  docOf [] [.imp [.all] a, .imp [.all] b, .imp [.all] a]
+example : Model.winner reimport1 = some 1 ∧ Spec.docWinner reimport1 = some 1 := by decide
 
 /-! ## non-vacuity -/
 
